@@ -106,6 +106,21 @@ def expressions(depth, core_only=False):
             break
 
 
+def const_displays():
+  """Displays made of constants only: with >=3 elements CPython folds them into one tuple / frozenset constant
+  (LIST_EXTEND / SET_UPDATE), which pytype's constant folder takes apart again; every 3-element list, set and tuple
+  display over a menu of constants incl. the falsy and the nested ones, and 4-element ones over a smaller menu."""
+  menu = ("()", "0", "''", "None", "(1,)", "1.5", "b''", "((), 0)")
+  for kind, l, r in (("list", "[", "]"), ("set", "{", "}"), ("tuple", "(", ")")):
+    for combo in itertools.product(range(len(menu)), repeat=3):
+      yield "const:%s/%s" % (kind, "".join(map(str, combo))), "x = %s%s%s" % (l, ", ".join(menu[i] for i in combo), r)
+    for combo in itertools.product(range(4), repeat=4):
+      yield "const:%s4/%s" % (kind, "".join(map(str, combo))), "x = %s%s%s" % (l, ", ".join(menu[i] for i in combo), r)
+  for combo in itertools.product(range(4), repeat=3):
+    yield ("const:dict/%s" % "".join(map(str, combo)),
+           "x = {%s}" % ", ".join("%d: %s" % (k, menu[i]) for k, i in enumerate(combo)))
+
+
 # ---------------------------------------------------------------- patterns
 
 SUBJECTS = (("na", "a"), ("nb", "b"), ("nc", "c"), ("int", "1"), ("inst", "K()"), ("enum", "e"), ("tup", "(1, 's')"), ("str", "'s'"))
@@ -159,6 +174,9 @@ ANN_FORMS = (
     ("bare", "y: {T}"), ("val", "y: {T} = {V}"), ("semi", "y: {T}; z = 1"), ("semi2", "z = 1; y: {T}"),
     ("semival", "y: {T} = {V}; z = 1"), ("two", "y: {T}\nw: {T}"), ("attr", "K.x: {T} = {V}"),
     ("sub", "b['k']: {T} = {V}"), ("paren", "(y): {T} = {V}"), ("mlval", "y: {T} = (\n    {V})"),
+    # characters that take more than one byte before / after the annotation on its line (byte vs character columns)
+    ("u8semi", "s = 'h\u00e9\u4e2d'; y: {T}; z = 1"), ("u8astral", "s = '\U0001f600'; y: {T}; z = 1"),
+    ("u8tail", "y: {T}; s = 'h\u00e9'"), ("u8name", "\u00e9: {T}; z = 1"),
     ("comment", "y: {T}  # trailing"), ("typecomment", "y = {V}  # type: {T1}"), ("cond", "if c: y: {T} = {V}"),
 )
 ANN_CTX = (("mod", "{S}\n"), ("fn", "def g(c, b):\n{I}\n  return 0\n"), ("cls", "class L:\n{I}\n"),
